@@ -12,7 +12,7 @@
     [inc_end m g n] / [hh_end g n] = n lies on an included / on an H-H bond, [charge_changed a] = the two charges in typesGH differ.
     Theorems 13-17: the RadiusExpand helpers. *)
 From Coq Require Import List NArith ZArith Bool.
-From SK Require Import lib.LGraph lib.C01_GraphLemmas model.C01_Model model.C02_Model proof.C02_Proof proof.C02_Opts proof.C02_OptsEquiv proof.C02_Ctx proof.C02_Lre proof.C02_LreTrace proof.C02_Sides proof.C02_CtxEquiv.
+From SK Require Import lib.LGraph lib.C01_GraphLemmas model.C01_Model model.C02_Model proof.C02_Proof proof.C02_Opts proof.C02_OptsEquiv proof.C02_Ctx proof.C02_Lre proof.C02_LreTrace proof.C02_Sides proof.C02_Sides2 proof.C02_CtxEquiv.
 Import ListNotations.
 Local Open Scope Z_scope.
 
@@ -305,3 +305,19 @@ Theorem C02_ctx_equivariant : forall f : N -> N, (forall a b, f a = f b -> a = b
   extract_k (relabel f g) k = relabel f (extract_k g k).
 Proof. exact ctx_equivariant. Qed.
 Print Assumptions C02_ctx_equivariant.
+
+(** 20'. theorem 20 for EVERY balance_its (sides with different atom counts included): the base graph only decides the
+         order of the ITS atoms and which atom_map a shared atom inherits *)
+Theorem C02_centre_vs_sides_all : forall ia bal (G H : mgraph), wf G -> wf H ->
+  let I := its_construct_ab ia bal G H in
+  forall u v,
+    (exists e, adj (get_rc I) u v = Some e) <->
+    (adj G u v <> None \/ adj H u v <> None) /\
+    ((if ia then 2 <= Z.abs (order_in G u v - order_in H u v) else order_in G u v <> order_in H u v) \/
+     (is_h I u = true /\ is_h I v = true)).
+Proof. exact centre_vs_sides_all. Qed.
+Print Assumptions C02_centre_vs_sides_all.
+
+Theorem C02_construct_wf : forall ia bal (G H : mgraph), wf G -> wf H -> wf (its_construct_ab ia bal G H).
+Proof. exact wf_construct_ab. Qed.
+Print Assumptions C02_construct_wf.
